@@ -83,7 +83,7 @@ func vPokeItem(it vItem) int {
 func VerifC14Isolation() {
 	depth := nd.Param("depth", 1)
 	c := vClient(false)
-	v := vspec.GenTree("a", depth, 2)
+	v := vspec.GenTree("a", depth, nd.Param("width", 2))
 	if nd.Known("C10-v2-empty-list-or-map-reads-as-null") && vHasEmptyContainer(v) {
 		nd.Reach("end")
 		return
